@@ -63,6 +63,10 @@ pub struct KnownFinding {
     pub what_fails: String,
     #[serde(default)]
     pub commit: Option<String>,
+    /// open findings: a committed replay file (relative to /verif) that the property's check
+    /// re-executes on every run, so that the finding is shown to still exist (KNOWN-FINDING line)
+    #[serde(default)]
+    pub replay: Option<String>,
 }
 
 #[derive(Clone, Debug, Serialize, Deserialize, Default)]
@@ -763,7 +767,10 @@ fn worker_history(id: &str, tier: &str, seed: u64) -> ExitCode {
         }
     }
     samples.sort_by_key(|s| s["run_index"].as_u64());
-    let (rep, harness_error) = minimise_and_report(id, seed, tier, firsts);
+    let (mut rep, harness_error) = minimise_and_report(id, seed, tier, firsts);
+    let pinned = replay_pinned_findings(id);
+    rep.known += pinned.known;
+    rep.violations += pinned.violations;
 
     let wall = out.wall.as_secs_f64();
     let warnings = zero_probe_warnings(&stats, &["parent_sol_inherited", "mirror_heuristic_hits", "cached_state", "lps_infeasible"]);
@@ -816,6 +823,38 @@ fn worker_history(id: &str, tier: &str, seed: u64) -> ExitCode {
         return ExitCode::from(2);
     }
     if rep.violations > 0 { ExitCode::from(1) } else { ExitCode::SUCCESS }
+}
+
+/// Re-executes the committed replay of every open known finding of this property. A finding that
+/// still reproduces is printed as KNOWN-FINDING (through the ordinary matching); one that no longer
+/// does is mentioned on stderr - the entry should then become a `fixed` one.
+fn replay_pinned_findings(id: &str) -> Reported {
+    let known = load_known();
+    let mut found: Vec<(Violation, PathBuf)> = Vec::new();
+    for f in known.findings.iter().filter(|f| f.status == "open" && f.property == id) {
+        let Some(rel) = &f.replay else { continue };
+        let path = verif_dir().join(rel);
+        let Ok(text) = std::fs::read_to_string(&path) else {
+            eprintln!("harness error: pinned replay {} of a known finding is missing", path.display());
+            std::process::exit(2);
+        };
+        let rep: PwlReplay = match serde_json::from_str(&text) {
+            Ok(r) => r,
+            Err(e) => {
+                eprintln!("harness error: pinned replay {}: {e}", path.display());
+                std::process::exit(2);
+            }
+        };
+        let res = pwlsim::run_scenario(&rep.scenario, Some(id));
+        let mine: Vec<Violation> = res.violations.into_iter().filter(|v| v.property == id).collect();
+        if mine.is_empty() {
+            eprintln!("note: the known finding pinned in {} no longer reproduces ({})", path.display(), f.what_fails);
+        }
+        for v in mine {
+            found.push((v, path.clone()));
+        }
+    }
+    report_lines(&found)
 }
 
 fn write_evidence(id: &str, ev: &Value) {
